@@ -19,12 +19,27 @@ class Plan:
         self.n = 0
         self.log = []              # (kind, statement text)
         self.fired = False
+        # engine-level points: every SQL statement the SQLite engine starts (statements INSIDE an executescript and the
+        # implicit BEGIN / COMMIT included), numbered through the connection's trace callback
+        self.sql_n = 0
+        self.sql_log = []
+
+    SQL_ACTIONS = ('exit-at-sql', 'interrupt-at-sql')
+
+    def sql_step(self, conn, text):
+        self.sql_n += 1
+        self.sql_log.append(' '.join(str(text).split())[:90])
+        if self.action in self.SQL_ACTIONS and self.sql_n == self.point and not self.fired:
+            self.fired = True
+            if self.action == 'exit-at-sql':
+                os._exit(137)
+            conn.interrupt()       # the statement now starting fails with OperationalError('interrupted')
 
     def step(self, kind, text, do):
         self.n += 1
         k = self.n
         self.log.append((kind, text if text is None else ' '.join(str(text).split())[:90]))
-        if self.point is not None and k == self.point and not self.fired:
+        if self.point is not None and k == self.point and not self.fired and self.action not in self.SQL_ACTIONS:
             self.fired = True
             if self.action == 'exit-before':
                 os._exit(137)
@@ -71,11 +86,6 @@ class CursorProxy:
         return self._c.close()
 
     @property
-    def connection(self):
-        # sqlite3.Cursor.connection: code that reaches the connection through the cursor stays inside the interposer
-        return self._conn
-
-    @property
     def lastrowid(self):
         return self._c.lastrowid
 
@@ -89,6 +99,7 @@ class CursorProxy:
 
     @property
     def connection(self):
+        # sqlite3.Cursor.connection: code that reaches the connection through the cursor stays inside the interposer
         return self._conn
 
 
@@ -96,6 +107,7 @@ class ConnProxy:
     def __init__(self, conn, plan):
         self.__dict__['_conn'] = conn
         self.__dict__['_plan'] = plan
+        conn.set_trace_callback(lambda text: plan.sql_step(conn, text))
 
     def cursor(self):
         return CursorProxy(self._conn.cursor(), self, self._plan)
